@@ -94,7 +94,7 @@ func judgeC08(c *fw.Ctx, sc *SnapCase) {
 func init() {
 	pr := &Profile{Sets: c08Sets, Kinds: allKinds, MinIDs: 1}
 	fw.Register(&fw.Prop{
-		ID: "C08", Cases: tierN(30000, 600000),
+		ID: "C08", Cases: tierN(150000, 2000000),
 		Run: func(c *fw.Ctx) {
 			sc, why := genSnapCase(c.Rng, pr)
 			if sc == nil {
